@@ -156,8 +156,15 @@ def run(pid, tier, seed, rundir, model_run):
                 count("stale/paused" if paused else "stale/not-paused(all files skipped)")
                 # every local file retrievable: at its path or as a conflict-copy
                 hs = dict(zip(sorted(local), blake3_hex([local[k] for k in sorted(local)])))
+                # excused: a file client 1 had nothing to send for (the hub already held exactly these bytes when it listed) and
+                # that client 2 then replaced with a CAS-put of its own — a later acknowledged commit by another client, which is
+                # what C03 allows to replace live content; client 1 never learns of it and rightly exits 0
+                replaced_later = {k for k in local if k == victim and hub0.get(k) == local[k] and rc2 == 0}
                 for k, v in local.items():
                     cc = f"{k}.conflict-{hs[k][:12]}"
+                    if k in replaced_later:
+                        count("stale/skipped-file-replaced-by-client-2(excused)")
+                        continue
                     if hub1.get(k) != v and hub1.get(cc) != v:
                         res["violations"].append(("local-file-not-retrievable-after-conflict", f"after the run (rc {rc1}) local file {k} is on the hub neither at its path nor as {cc}", rep))
                 # nothing client 2 committed may be overwritten
@@ -165,6 +172,8 @@ def run(pid, tier, seed, rundir, model_run):
                     res["violations"].append(("other-clients-commit-overwritten", f"client 2's commit at {victim} was replaced", rep))
                 if rc1 == 0:
                     for k, v in local.items():
+                        if k in replaced_later:
+                            continue
                         if hub1.get(k) != v:
                             res["violations"].append(("exit0-but-local-file-not-on-hub", f"exit 0 but hub/{k} does not hold the local bytes", rep))
             if len(res["samples"]) < 6:
